@@ -85,6 +85,8 @@ pub use crate::walk::behavior::{
     DepthBehavior, DepthMax, DepthMin, DepthMinMax, LinkBehavior, WalkBehavior,
 };
 pub use crate::walk::glob::GlobEntry;
+#[cfg(olson_sean_k_wax_verif)]
+pub use crate::walk::glob::verif_negation_patterns;
 
 type FileFiltrate<T> = Result<T, WalkError>;
 type FileResidue<R> = TreeResidue<R>;
